@@ -171,9 +171,6 @@ func one(c *eng.Ctx, t int, rng *rand.Rand, dir string) bool {
 			case "long":
 				data = append(data, 9)
 			}
-			if mi == 0 { // a negative index makes getPiece panic in the code as found (DESIGN F03a, relevant to C14): not driven here
-				mi = n + 1
-			}
 			w.g, w.done, w.i, w.c = newGated(data, len(data)), make(chan error, 1), mi, cl
 			go func(w *writer, idx int) {
 				defer func() {
